@@ -37,7 +37,8 @@ void harness(void)
 {
 	array_t *dst = NULL;
 	const array_t *src = NULL;
-	/* no cover points: dfcc turns __CPROVER_cover into a body-less call;
-	 * non-vacuity of this harness is shown by the selftest mutants */
-	(void)array_init_copy(dst, src);
+	int ret = array_init_copy(dst, src);
+
+	VERIF_COVER(ret == 0);
+	VERIF_COVER(ret != 0);
 }
